@@ -33,6 +33,12 @@ CHECKS = {
  "C12": ("reachability of token-data writers + provenance of minted literal + guard dominance (supply==0) + request-field use + regex/byte-language analysis of validators + sibling agreement of views",
          "Only Mint writes token data (from the mint handler, with request-derived content and block time); class delete is dominated by GetTotalSupply(sameId)==0; every query request field is used; identifiers entering x/nft's delimiter-joined keys exclude the delimiter byte on every accepting path of ValidateBasic; the three token views agree field by field.",
          "Trusts x/nft owner index and iterators; genesis identifiers are trusted input."),
+ "C07": ("must-call on all paths + provenance equalities in the burn function + configuration evaluation + who-may-call of bank mutators",
+         "EndBlock always runs the burn with the constant burn address and swallows its error (no panic); Coins sent = Coins burned = SpendableCoins of the sender parsed from that address; same module constant on both calls; early return only when that datum is empty; Burner permission, end-blocker order, manager registration and keeper construction are wired; coin-moving bank methods are called only from the burn keeper.",
+         "Trusts the bank keeper (supply accounting, SpendableCoins/SendCoins), crisis invariants, module manager dispatch."),
+ "C19": ("evaluation of the literal upgrade/store configuration + exhaustiveness + definite-edge reachability from upgrade packages",
+         "Every mounted store belongs to a module predating the first descriptor or is Added (and not later Deleted) by a registered descriptor; names distinct; handler and store-loader loops cover the whole Upgrades slice and run in New after manager/configurator; ConsensusVersion n has n-1 migrations; upgrade packages reach no aol/did/pnft store mutator.",
+         "Trusts x/upgrade, store loader, RunMigrations; does not execute the upgrade block."),
 }
 
 PENDING_REASON = "check not built yet in this round (planned per DESIGN.md section 4); no claim is made until the checker rule exists"
